@@ -79,9 +79,25 @@ func runC14(env *core.Env) {
 	fx := NewFix(env, w0)
 	root := fx.Store()
 	maxTasks, maxEpics := 2, 2
+	c14MoreStates := []string{"error", "canceled", "blocked", "doing"}
 	if env.Thorough() {
 		maxTasks = 3
 	}
+	// second root: which children keep an epic alive across prune. E1 has two claimed children, E2 none; alphabet:
+	// every state for every task, prune, compact, and moving a task out of / into E1
+	var root2 core.Store
+	var r2E1 string
+	{
+		fx2 := NewFix(env, w0)
+		r2E1 = fx2.NewEpic("E1")
+		fx2.NewEpic("E2")
+		// both children start claimed: the first root never claims, so the two explorations share no canonical state
+		fx2.NewTask(map[string]interface{}{"title": "c1", "epic": r2E1, "claim": "ag"})
+		fx2.NewTask(map[string]interface{}{"title": "c2", "epic": r2E1, "claim": "ag"})
+		root2 = fx2.Store()
+	}
+	root2Key := core.CanonLog(root2.Log())
+	fromRoot2 := func(n *Node) bool { return core.CanonLog(rootOfNode(n).Log()) == root2Key }
 	ops := map[string]c14Op{} // shell line -> op meta (filled by the generator, read in OnTransition)
 	var opsMu = make(chan struct{}, 1)
 	curKey := ""
@@ -108,6 +124,19 @@ func runC14(env *core.Env) {
 		}
 		for _, it := range obs.Epics {
 			epics = append(epics, it.ID)
+		}
+		if fromRoot2(n) {
+			var out []core.Req
+			for _, t := range tasks {
+				for _, stt := range []string{"todo", "done", "error", "canceled", "blocked", "doing"} {
+					out = append(out, putOp(c14Op{Req: core.R("", "--json", "set", t).In(`{"state":"` + stt + `","claim":"ag"}`), Cmd: "other"}))
+				}
+				out = append(out, putOp(c14Op{Req: core.R("", "--json", "set", t).In(`{"epic":""}`), Cmd: "other"}))
+				out = append(out, putOp(c14Op{Req: core.R("", "--json", "set", t).In(`{"epic":"` + r2E1 + `"}`), Cmd: "other"}))
+			}
+			out = append(out, putOp(c14Op{Req: core.R("", "--json", "prune", "--yes"), Cmd: "other"}))
+			out = append(out, putOp(c14Op{Req: core.R("", "--json", "compact"), Cmd: "other"}))
+			return out
 		}
 		pruned := prunedIDs(n.Store.Log())
 		if len(pruned) > 2 {
@@ -159,6 +188,13 @@ func runC14(env *core.Env) {
 			}
 			out = append(out, putOp(c14Op{Req: core.R("", "--json", "set", t).In(`{"state":"done"}`), Cmd: "other"}))
 			out = append(out, putOp(c14Op{Req: core.R("", "--json", "set", t).In(`{"state":"todo"}`), Cmd: "other"}))
+			// the other states (which of them count as open work decides whether prune may take the epic)
+			for _, stt := range c14MoreStates {
+				if !env.Thorough() {
+					break // quick tier: the other states are explored from the second root only
+				}
+				out = append(out, putOp(c14Op{Req: core.R("", "--json", "set", t).In(`{"state":"` + stt + `","claim":"ag"}`), Cmd: "other"}))
+			}
 		}
 		for _, e := range epics {
 			for _, c := range cands {
@@ -224,7 +260,7 @@ func runC14(env *core.Env) {
 		}
 	}
 
-	b := &BFS{Env: env, Roots: []core.Store{root}, KeyFn: graphKey, Ops: gen, MaxStates: 200000}
+	b := &BFS{Env: env, Roots: []core.Store{root, root2}, KeyFn: graphKey, Ops: gen, MaxStates: 200000}
 	b.Conf = newConformer(50, 300)
 	b.OnState = func(w *core.Worker, n *Node) { checkState(w, n, n.Path) }
 	b.OnTransition = func(w *core.Worker, n *Node, req core.Req, res core.Res, after core.Store) {
@@ -270,7 +306,7 @@ func runC14(env *core.Env) {
 	env.Finish("model_checking", map[string]interface{}{
 		"states": b.States, "transitions": b.Transitions, "traces_validated_against_impl": validated, "concurrent": concCov,
 		"samples": samples.list, "exhaustive": b.Exhaustive, "cap_hit": b.CapHit, "bfs_depth": b.DepthDone,
-		"bound":                      fmt.Sprintf("<=%d tasks, <=%d epics live, <=3 tombstones; BFS to fixpoint on the canonical graph", maxTasks, maxEpics),
+		"bound":                      fmt.Sprintf("<=%d tasks, <=%d epics live, <=3 tombstones; second root E1:{c1,c2} E2:{} with all six states per task, prune, compact, moves out of/into E1; BFS to fixpoint on the canonical graph", maxTasks, maxEpics),
 		"bad_epic_requests_rejected": rejBad, "bad_epic_requests_accepted": accBad, "valid_epic_requests_accepted": accGood, "valid_epic_requests_rejected": rejGood,
 		"states_checked": statesChecked, "distinct_outcome_classes": classes.len(), "outcome_classes": classes.snapshot(),
 		"unconfirmed_candidates": unconfirmed.Load(),
@@ -284,4 +320,4 @@ func (n *Node) stripCwd(r core.Req, w *core.Worker) core.Req {
 }
 
 // pathRoot: replay traces of state invariants start from the BFS root and replay the whole path.
-func pathRoot(n *Node, root core.Store) core.Store { return root }
+func pathRoot(n *Node, root core.Store) core.Store { return rootOfNode(n) }
